@@ -23,6 +23,9 @@ type Rewrite struct {
 	Source   string // "quickfix" or "message"
 	Kind     string // "expr", "stmts", "type", "unknown": syntactic category of what is replaced
 	NStmts   int    // number of statements covered (Kind == "stmts")
+	// ParseOnly: the message quotes replacement statements for a multi-statement pattern whose extent the
+	// message does not give (wrapperFunc's strings.Cut proposals): only "parses as statements" is checked.
+	ParseOnly bool
 }
 
 func printNode(fset *token.FileSet, n ast.Node) string {
@@ -168,6 +171,10 @@ func Locate(fset *token.FileSet, f *ast.File, src []byte, checker string, w lint
 			return &Rewrite{From: a, To: b, New: strings.TrimPrefix(m[2], "func"), Old: string(src[a:b]), Source: "message", Kind: "signature", NStmts: 0}, ""
 		}
 		return nil, "inconclusive:no-node-at-pos"
+	}
+	if m := suggestion.FindStringSubmatch(strings.SplitN(w.Text, "\n", 2)[0]); m != nil && checker == "wrapperFunc" {
+		a := tf.Offset(w.Pos)
+		return &Rewrite{From: a, To: a, New: m[1], Source: "message", Kind: "stmts", ParseOnly: true}, ""
 	}
 	orig, repl, ok := Segments(w.Text)
 	if !ok {
